@@ -401,3 +401,44 @@ func init() {
 	// the local zone is UTC unless a harness installs one (time.Local = time.FixedZone(...))
 	intrinsics["time.initLocal"] = func(e *Exec, th *Thread, caller *Frame, site ssa.Instruction, args []Value) Value { return nil }
 }
+
+func init() {
+	// sort.Slice uses reflection for swapping: insertion sort driven by the interpreted less function
+	sortSlice := func(e *Exec, th *Thread, caller *Frame, site ssa.Instruction, args []Value) Value {
+		iv, _ := args[0].(IfaceV)
+		sv, ok := iv.V.(SliceV)
+		if !ok || sv.Base == nil {
+			return nil
+		}
+		n := e.sliceLenConst(caller, site, sv)
+		lessAt := func(i, j int) bool {
+			r := e.term(e.callValue(th, caller, site, args[1], []Value{e.mkInt(int64(i)), e.mkInt(int64(j))}))
+			if r.IsConst() {
+				return r.K == 1
+			}
+			return e.decideBool(caller, site, r, "sort.Slice less "+e.pos(site))
+		}
+		for i := 1; i < n; i++ {
+			for j := i; j > 0 && lessAt(j, j-1); j-- {
+				a := e.sliceGet(caller, site, sv, j)
+				b := e.sliceGet(caller, site, sv, j-1)
+				e.sliceSet(caller, site, sv, j, b)
+				e.sliceSet(caller, site, sv, j-1, a)
+			}
+		}
+		return nil
+	}
+	intrinsics["sort.Slice"] = sortSlice
+	intrinsics["sort.SliceStable"] = sortSlice
+}
+
+func init() {
+	// reflect.TypeOf is only supported as an identity token (map key / comparison), not for reflection
+	intrinsics["reflect.TypeOf"] = func(e *Exec, th *Thread, caller *Frame, site ssa.Instruction, args []Value) Value {
+		iv, _ := args[0].(IfaceV)
+		if iv.T == nil {
+			return IfaceV{}
+		}
+		return IfaceV{T: types.Typ[types.String], V: "reflect.Type:" + iv.T.String()}
+	}
+}
